@@ -220,6 +220,9 @@ def rule_r3(ck, prog, rule='C09.R3', path_filters=('/api/include/opentelemetry/t
                         hops += 1
                     if inner.get('t') in ('char', 'signed char') and (src.get('t') or '') not in ('unsigned char',):
                         ok, why = False, 'a plain char converted to %s keeps its sign: bytes >= 0x80 index out of the table' % src.get('t')
+                    elif _ubound(f, n['index']) is not None:
+                        ub = _ubound(f, n['index'])
+                        ok, why = ub < ext, 'value range 0..%d (types, masks, shifts and once-initialised locals folded)' % ub
                     else:
                         why = 'index %s of type %s is not bounded by a constant, its type or a mask' % (x['k'], it)
                         ck.inconclusive(rule, f, site, n, why) if only is None else ck.violation(rule, f, site, n, why)
@@ -229,6 +232,53 @@ def rule_r3(ck, prog, rule='C09.R3', path_filters=('/api/include/opentelemetry/t
             else:
                 ck.violation(rule, f, site, n, 'subscript into an array of %d elements: %s' % (ext, why))
     return cnt
+
+
+_UMAX = {'unsigned char': 255, 'uint8_t': 255, 'const uint8_t': 255, 'const unsigned char': 255, 'unsigned short': 65535, 'uint16_t': 65535,
+         'const uint16_t': 65535, 'const unsigned short': 65535, 'bool': 1}
+
+
+def _ubound(f, i, depth=0):
+    """an upper bound of an index expression that is provably non-negative (unsigned narrow type, mask, shift of a bounded value,
+    remainder by a constant, a local initialised once with such a value); None when no bound follows from the shape"""
+    if i is None or i < 0 or depth > 8:
+        return None
+    n = f.nodes[i]
+    if 'v' in n:
+        return n['v'] if isinstance(n['v'], int) and n['v'] >= 0 else None
+    k = n['k']
+    tmax = _UMAX.get((n.get('t') or '').replace('std::', ''))
+    if k == 'cast':
+        inner = _ubound(f, n['e'], depth + 1)
+        if tmax is not None:
+            # conversion to a narrow unsigned type: the value is reduced modulo 2^N, so the type bounds it whatever the operand was
+            return tmax if inner is None else min(tmax, inner)
+        return inner
+    if k == 'binop':
+        a, b = _ubound(f, n['lhs'], depth + 1), _ubound(f, n['rhs'], depth + 1)
+        op = n['op']
+        if op == '&':
+            c = [x for x in (a, b) if x is not None]
+            return min(c) if c else None
+        if op == '>>' and a is not None and 'v' in f.nodes[n['rhs']] and 0 <= f.nodes[n['rhs']]['v'] < 64:
+            return a >> f.nodes[n['rhs']]['v']
+        if op == '%' and a is not None and b is not None and 'v' in f.nodes[n['rhs']] and b > 0:
+            return min(a, b - 1)
+        if op == '/' and a is not None and 'v' in f.nodes[n['rhs']] and (b or 0) > 0:
+            return a // b
+        return None
+    if k == 'ref' and n.get('sk') == 'local':
+        from .common import once_init
+        decls = [d for m in f.nodes if m['k'] == 'declstmt' for d in m['decls'] if d['id'] == n['id']]
+        inits = [d['init'] for d in decls if d.get('init') is not None and d['init'] >= 0]
+        if len(inits) == 1 and once_init(f, i) is not n:
+            inner = _ubound(f, inits[0], depth + 1)
+            if inner is not None:
+                return inner if tmax is None else min(inner, tmax)
+        return tmax
+    if k in ('ref', 'member', 'subscript', 'call'):
+        return tmax
+    return None
 
 
 def _loop_bounded(f, sub, ref, ext):
@@ -691,31 +741,35 @@ def rule_r10_header_sources(ck, prog, rule='C09.R10', cls='trace::propagation::H
                 return 'tracestate'
         return None
 
-    def sources(p, idx, under_trim=False, depth=0):
+    def sources(sf0, sc0, idx, under_trim=False, depth=0):
         """set of (header, whether a StringUtil::Trim lies on the derivation) the expression derives from"""
         out = set()
-        for (sf, sn, sc) in origins(g, rd, p.f, idx, p.ctx):
+        for (sf, sn, sc) in origins(g, rd, sf0, idx, sc0):
             h = header_of(sf, sn)
             if h:
                 out.add((h, under_trim))
                 continue
-            if sn['k'] in ('call', 'construct') and depth < 5:
-                pt = g.point_of.get((id(sc), sn['i']))
-                if pt is None:
-                    continue
+            if depth >= 6:
+                continue
+            if sn['k'] == 'cond':
+                # a ?: that selects between two derivations of the text (inside an inlined helper or at the read itself)
+                for br in (sn.get('a'), sn.get('b')):
+                    if br is not None and br >= 0:
+                        out |= sources(sf, sc, br, under_trim, depth + 1)
+            elif sn['k'] in ('call', 'construct'):
                 if sn['k'] == 'call' and strip_targs(sn.get('c', '')).endswith('StringUtil::Trim') and sn.get('args'):
-                    out |= sources(pt, sn['args'][0], True, depth + 1)
+                    out |= sources(sf, sc, sn['args'][0], True, depth + 1)
                 else:
                     # a conversion / sub-view of a view: follow the object or the first operand
                     nxt = sn['obj'] if sn.get('obj') is not None else (sn['args'][0] if sn.get('args') else None)
                     if nxt is not None and nxt >= 0:
-                        out |= sources(pt, nxt, under_trim, depth + 1)
+                        out |= sources(sf, sc, nxt, under_trim, depth + 1)
         return out
     splits = [p for p in g.points if p.n is not None and p.n['k'] == 'call' and strip_targs(p.n.get('c', '')).endswith('detail::SplitString') and p.n.get('args')]
     parses = [p for p in g.points if p.n is not None and p.n['k'] == 'call' and strip_targs(p.n.get('c', '')).endswith('TraceState::FromHeader') and p.n.get('args')]
     if not splits or not parses:
         raise AnalysisBroken('C09.R10: SplitString / TraceState::FromHeader not reached from %s::ExtractImpl' % cls)
-    src = sources(splits[0], splits[0].n['args'][0])
+    src = sources(splits[0].f, splits[0].ctx, splits[0].n['args'][0])
     h = {x for (x, _t) in src}
     # trimmed: every read of the traceparent header in this function is (through once-initialised locals) the operand of a Trim call
     from .common import subtree_through_locals
@@ -730,7 +784,7 @@ def rule_r10_header_sources(ck, prog, rule='C09.R10', cls='trace::propagation::H
                    'the fields are split from Trim(carrier.Get(traceparent))' if ok else
                    ('the traceparent is parsed without trimming surrounding whitespace: a well-formed header with leading / trailing blanks is rejected' if h == {'traceparent'} else
                     'the traceparent fields are split from %s' % sorted(h)))
-    h = {x for (x, _t) in sources(parses[0], parses[0].n['args'][0])}
+    h = {x for (x, _t) in sources(parses[0].f, parses[0].ctx, parses[0].n['args'][0])}
     if not h:
         ck.inconclusive(rule, f, 'trace-state-from-tracestate-header', parses[0].n, 'the origin of the parsed trace state text was not resolved')
     else:
